@@ -126,6 +126,47 @@ def has_duplicates(v: heapser.HeapView) -> bool:
     return any(c != i for i, c in enumerate(v.cls))
 
 
+def namespaces(v: heapser.HeapView) -> list[set[int]]:
+    """per node the namespaces it lives in: -1 = the outer graph, k = body of FunctionDefinition k.
+    A function body is mapped by a clone of the mapper with its own array cache (documented:
+    "the namespace of the function's body is different from that of the caller")."""
+    ns: list[set[int]] = [set() for _ in v.nodes]
+
+    def fill(start, tag):
+        st = [start]
+        while st:
+            i = st.pop()
+            if tag in ns[i]:
+                continue
+            ns[i].add(tag)
+            for _, c, j in v.edges[i]:
+                if c != "function":
+                    st.append(j)
+    fill(v.root, -1)
+    for i in range(len(v.nodes)):
+        if v.kind(i) == "FunctionDefinition":
+            for _, c, j in v.edges[i]:
+                fill(j, i)
+    return ns
+
+
+def duplicates_within_namespace(v: heapser.HeapView) -> list[tuple[int, int]]:
+    ns = namespaces(v)
+    first: dict[tuple[int, int], int] = {}
+    out = []
+    for i, c in enumerate(v.cls):
+        for tag in ns[i]:
+            j = first.setdefault((tag, c), i)
+            if j != i:
+                out.append((j, i))
+    return out
+
+
+def duplicates_cross_namespace(v: heapser.HeapView) -> bool:
+    ns = namespaces(v)
+    return any(c != i and not (ns[i] & ns[c]) for i, c in enumerate(v.cls))
+
+
 # --------------------------------------------------------------------------
 # 1. table rows the kernel rejects: locate + search
 # --------------------------------------------------------------------------
@@ -325,7 +366,7 @@ def check_traversals(ctx, t: ch.Tables):
         model = set(heapser.parse_ids(ans[3:]))
         real = {v.index[i] for i in log.method_calls if i in v.index}
         foreign = [i for i in log.method_calls if i not in v.index]
-        multi = {v.index[i]: c for i, c in log.method_calls.items() if c > 1 and i in v.index}
+        multi = {v.index[i]: c for (_, i), c in log.instance_calls.items() if c > 1 and i in v.index}
         if e.cached and multi and not has_duplicates(v):
             n_dis += 1
             worst = max(multi.items(), key=lambda p: p[1])
@@ -454,7 +495,8 @@ def check_transforms(ctx, t: ch.Tables):
             rv = heapser.view(res)
             created = sum(1 for i in rv.index if i not in in_ids)
             excl = ch.exclusions_for(t, name)
-            pending.append((name, spec, v, res is graph, len(rv.nodes), created, has_duplicates(rv), len(queries)))
+            pending.append((name, spec, v, res is graph, len(rv.nodes), created,
+                            bool(duplicates_within_namespace(rv)), len(queries)))
             queries.append(f"(mapper transform {v.sexp()} {v.root} {heapser.excl(excl)} id)")
         # a transformation that does change something: tag every IndexLambda with a fresh tag
         if not dups and "Call" not in kinds_present:
@@ -490,14 +532,20 @@ def check_transforms(ctx, t: ch.Tables):
         problems = []
         if same != m_same:
             problems.append(f"result is argument: real {same}, model {m_same}")
-        if rnodes != m_nodes:
+        if rnodes != m_nodes and not duplicates_cross_namespace(v):
+            # the model has one result cache; the code has one per namespace (function body): equal
+            # nodes of two different bodies are, by design, not merged
             problems.append(f"distinct result nodes: real {rnodes}, model {m_nodes}")
-        if created != m_created:
+        if created != m_created and not has_duplicates(v):
+            # with duplicates, WHICH of two equal nodes is met first (and therefore how many parents
+            # are rebuilt) depends on the traversal order of mappings; the number of distinct result
+            # nodes does not
             problems.append(f"created nodes: real {created}, model {m_created}")
         if rnodes > len(v.nodes):
             problems.append(f"result has more distinct nodes ({rnodes}) than the input ({len(v.nodes)})")
         if name in ("Deduplicator", "fn:deduplicate") and rdups:
-            problems.append("result of deduplicate still contains structurally equal distinct nodes")
+            problems.append("result of deduplicate still contains structurally equal distinct nodes "
+                            "within one namespace")
         if problems:
             dis += 1
             if not has_duplicates(v) and not same and m_same and "tag" not in name:
